@@ -95,6 +95,8 @@ func runC03(c *core.Ctx) {
 	// R8: the client's chunked-upload bookkeeping (shared with C04.R5): what the
 	// client tells the server about offsets is what it actually sent.
 	relabel(c, "C03.R8", func() { c04ClientBookkeeping(c) })
+	serverRangeDispatch(c, "C03.R9")
+	serverPostSuccessRejections(c, "C03.R10")
 }
 
 // describe a value stored into a Request field in terms of method fn's parameters.
